@@ -3,7 +3,7 @@
  * loop against the real server; at EVERY answer on its way to the client the explorer forks one
  * child per item of a hostile menu built from that honest answer (one substitution = one
  * deviation; the rest of the run stays honest so that every later handshake step is reached).
- * Oracle: no sanitizer report, no crash, no wall-clock overrun; an answer whose DNS id matches
+ * Oracle: no sanitizer report, no crash, no CPU-time overrun; an answer whose DNS id matches
  * none of the client's three latest queries causes no tun write and leaves the client's
  * reassembly state untouched.                                        DESIGN.md 2, C06 */
 #include <ctype.h>
@@ -35,7 +35,7 @@ static void on_san(const char *sig)
 	xp_count(K_SAN, 1);
 	viol(what, "%s", cur_desc[0] ? cur_desc : "honest run, no substitution");
 }
-static void on_alarm(int s) { (void)s; viol("not-processed-in-bounded-time", "client or server did not finish within 60 s of wall-clock time: %s", cur_desc); _exit(0); }
+static void on_alarm(int s) { (void)s; viol("not-processed-in-bounded-time", "client or server did not finish within 60 s of its own CPU time: %s", cur_desc); _exit(0); }
 
 /* ---------------------------------------------------------------- cells */
 typedef struct ccell { const char *qtype, *downenc; int lazy, raw, fragsize; const char *name; } ccell;
@@ -369,7 +369,7 @@ static void on_callback(int slot, int b)
 			/* child */
 			in_child = 1;
 			XC.path[0].cp = answer_no; XC.path[0].alt = i; XC.npath = 1;
-			alarm(60);
+			hc_cpu_alarm(60);
 			if (i >= nmenu + NPRE) {
 				int t = i - nmenu - NPRE;
 				train_left = TRAIN[t].n; train_body = TRAIN[t].body; train_frag = 0; train_seq = (ca_w_inpkt()->seqno + 1) & 7;
@@ -482,8 +482,8 @@ static void job(int j)
 	}
 	ns_install_hooks = install;
 	ns_mon_tun_write = mon_tunw;
-	signal(SIGALRM, on_alarm);
-	alarm(600);
+	signal(SIGPROF, on_alarm);
+	hc_cpu_alarm(600);
 	int rc = ns_boot(&cfg, 200 * 1000000LL);
 	if (rc == 0) {
 		xp_count(K_HS_OK, 1);
@@ -495,7 +495,7 @@ static void job(int j)
 		while (n++ < 200000) { int64_t t = vw_next_time(); if (t == VW_NEVER || t > until) break; if (!vw_step()) break; }
 	} else xp_count(K_HS_FAIL, 1);
 	if (!vw_alive(1) && W.proc[1].state == VW_P_EXITED) xp_count(K_CLIENT_EXIT, 1);
-	alarm(0);
+	hc_cpu_alarm(0);
 	if (is_reference) { REFHASH[j] = final_state(rc); xp_child_exit(); }
 	if (prefill_kind >= 0 && !XC.replay) {
 		if (!REFHASH[j]) vw_fatal("no reference state for job %d", j);
